@@ -43,6 +43,17 @@ type hiddenField struct {
 	f1 string `xsel:"child::b"`
 }
 
+type hiddenStructField struct {
+	f1 struct {
+		F1 string `xsel:"self::node()"`
+	} `xsel:"child::b"`
+}
+type hiddenStructFieldSelf struct {
+	f1 struct {
+		F1 string `xsel:"self::node()"`
+	} `xsel:"self::node()"`
+}
+
 func goType(t *TypeD) (reflect.Type, error) {
 	switch t.K {
 	case "prim":
@@ -77,6 +88,12 @@ func goType(t *TypeD) (reflect.Type, error) {
 			if !f.Exported {
 				if len(t.F) == 1 && f.T.K == "prim" && f.T.P == "string" {
 					return reflect.TypeOf(hiddenField{}), nil
+				}
+				if len(t.F) == 1 && f.T.K == "struct" && len(f.T.F) == 1 && f.Tag != nil && len(f.Tag.Steps) == 1 {
+					if f.Tag.Steps[0].Ax == "self" {
+						return reflect.TypeOf(hiddenStructFieldSelf{}), nil
+					}
+					return reflect.TypeOf(hiddenStructField{}), nil
 				}
 				return nil, fmt.Errorf("unexported fields only in the declared shape")
 			}
